@@ -207,9 +207,9 @@ def parse_cases(lines):
                 elif kv == "OPENFAIL":
                     cur["openfail"] = True
         elif l.startswith("R "):
-            m = re.match(r"R (\S+) v=(\d+) out=(\S+) desc=(.*)", l)
+            m = re.match(r"R (\S+) v=(\d+) out=(\S+) ms=(\d+) desc=(.*)", l)
             if m:
-                cur.update(out=m.group(3), desc=m.group(4))
+                cur.update(out=m.group(3), ms=int(m.group(4)), desc=m.group(5))
         elif l.startswith("E "):
             cur["stderr"].append(l[2:])
     return cases
